@@ -990,6 +990,24 @@ def translate_paths():
     meta["hand_modelled_shapes_checked"] = ["resolve", "datagram_received_ipv4", "datagram_received_ipv6", "enable/create_transports",
                                             "TunnelProtocol.datagram_received", "on_create guards"]
 
+    # --- nobody re-points a hop: no assignment to `<…>.hop`, `<…>.peer` or `<…>.hop.peer.address` / `<…>.peer.address`, and no
+    #     add_address on a hop's peer, outside the constructors (community.py, hidden_services.py, exit_socket.py)
+    for file, src_ in ((COMM, cm_src), ("ipv8/messaging/anonymization/hidden_services.py",
+                                        (REPO / "ipv8/messaging/anonymization/hidden_services.py").read_text()), (SRC, es_src)):
+        for fn in ast.walk(ast.parse(src_)):
+            if not isinstance(fn, (ast.FunctionDef, ast.AsyncFunctionDef)) or fn.name == "__init__":
+                continue
+            for n in ast.walk(fn):
+                tgts = n.targets if isinstance(n, ast.Assign) else [n.target] if isinstance(n, (ast.AugAssign, ast.AnnAssign)) else []
+                for t in tgts:
+                    txt_ = ast.unparse(t)
+                    if isinstance(t, ast.Attribute) and (t.attr in ("hop", "peer") or (t.attr == "address" and (".hop" in txt_ or ".peer" in txt_))):
+                        raise TranslatorError(f"{file}:{n.lineno}: {fn.name} assigns `{txt_}` (the hop of a circuit / exit socket must keep "
+                                              "the address the circuit was created from)")
+                if isinstance(n, ast.Call) and isinstance(n.func, ast.Attribute) and n.func.attr == "add_address" \
+                        and ".hop" in ast.unparse(n.func.value):
+                    raise TranslatorError(f"{file}:{n.lineno}: {fn.name} adds an address to a hop's peer")
+
     # --- the source address on_data sees must be the datagram's: nothing between the endpoint and on_data may rebind it
     CR = "ipv8/messaging/anonymization/crypto.py"
     pce = find_class(ast.parse((REPO / CR).read_text()), "PythonCryptoEndpoint")
